@@ -205,7 +205,7 @@ fn td(name: &str, kind: &str) -> TypeD {
     TypeD { name: name.into(), kind: kind.into(), fields: vec![], implements: vec![], members: vec![], values: vec![] }
 }
 
-fn wrap(rng: &mut Rng, base: &str) -> TRef {
+fn wrap(rng: &mut Rng, base: &str, nested: bool) -> TRef {
     let n = || TRef::Named(base.to_string());
     let nn = |t: TRef| TRef::NonNull(Box::new(t));
     let l = |t: TRef| TRef::List(Box::new(t));
@@ -216,11 +216,14 @@ fn wrap(rng: &mut Rng, base: &str) -> TRef {
         8 => l(nn(n())),
         9 => nn(l(n())),
         10 => nn(l(nn(n()))),
-        _ => l(l(n())),
+        _ if nested => l(l(n())),
+        _ => l(n()),
     }
 }
 
-fn gen_schema(rng: &mut Rng, dist: &mut Dist) -> SchemaD {
+/// `nested_comp`: allow `[[T]]` for composite `T` (kept out of the faults stream: the shallow merge of
+/// nested lists under a repeated response key is a C02 finding)
+fn gen_schema(rng: &mut Rng, dist: &mut Dist, nested_comp: bool) -> SchemaD {
     let n_obj = 2 + rng.below(3);
     let n_if = rng.below(4);
     let n_un = rng.below(3);
@@ -253,8 +256,9 @@ fn gen_schema(rng: &mut Rng, dist: &mut Dist) -> SchemaD {
     let n_pool = 8 + rng.below(7);
     let pool: Vec<FieldD> = (0..n_pool)
         .map(|k| {
-            let base = if rng.chance(9, 20) { rng.pick(&comps).clone() } else { rng.pick(&leafs).clone() };
-            FieldD { name: format!("f{k}"), ty: wrap(rng, &base), args: vec![] }
+            let comp = rng.chance(9, 20);
+            let base = if comp { rng.pick(&comps).clone() } else { rng.pick(&leafs).clone() };
+            FieldD { name: format!("f{k}"), ty: wrap(rng, &base, nested_comp || !comp), args: vec![] }
         })
         .collect();
     let add_fields = |dst: &mut Vec<FieldD>, src: &[FieldD]| {
@@ -330,11 +334,11 @@ fn gen_schema(rng: &mut Rng, dist: &mut Dist) -> SchemaD {
     // root: one entry point per composite type, a few leaves, echo
     let mut q = td("Query", "object");
     for (k, c) in comps.iter().enumerate() {
-        q.fields.push(FieldD { name: format!("q{k}"), ty: wrap(rng, c), args: vec![] });
+        q.fields.push(FieldD { name: format!("q{k}"), ty: wrap(rng, c, nested_comp), args: vec![] });
     }
     for k in 0..1 + rng.below(3) {
         let base = rng.pick(&leafs).clone();
-        q.fields.push(FieldD { name: format!("r{k}"), ty: wrap(rng, &base), args: vec![] });
+        q.fields.push(FieldD { name: format!("r{k}"), ty: wrap(rng, &base, true), args: vec![] });
     }
     if rng.chance(1, 2) {
         let nn_int = TRef::NonNull(Box::new(TRef::Named("Int".into())));
@@ -535,7 +539,7 @@ fn gen_case(rng: &mut Rng, _i: usize, o: &Opts, dist: &mut Dist) -> Sexp {
         FAMILY.with(|f| f.clone())
     } else {
         dist.hit("schema_random");
-        gen_schema(rng, dist)
+        gen_schema(rng, dist, mode != Mode::Faults)
     };
     let op_ty = if mode == Mode::Faults && sd.mutation.is_some() && rng.chance(1, 4) { "mutation" } else { "query" };
     let (mut doc, vars) = loop {
